@@ -3,6 +3,9 @@ Case lines (see harness/src/codec18.rs for the SHAPE language):
   msg <written shape> <template shape> <rest hex> <c|o|->   length(), write, read back into the template (+ trailing rest);
                                                             c/o = the generator claims the pair is well formed in a closed/open reader
   rd  <template shape> <input hex>                          read arbitrary bytes into a template
+  rw  <template shape> <input hex>                          read, then WRITE what was read, compare with the input (same=0|1)
+  per dw<primitive> ..   der dw <template> <hex>   mcs crdw <hex>      decode with the real reader, encode the result with the
+                                                            real writer, compare with the input
   per <primitive> <args..>                                  the 22 functions of core/per.rs (w*, r*, rt* = write then read back)
   der <enc|dec|rt> <value>                                  nla/asn1.rs over yasna, from a value description
   mcs <ci|cr> ..  cssp <..> ..                              connect-initial / connect-response / TSRequest family
@@ -13,7 +16,7 @@ from common import *
 import refcodec as R
 
 GROUP = "codec18"
-MODEL_FILES = ["coq/Msg.v", "coq/Per.v", "coq/Der.v", "coq/Gcc.v"]
+MODEL_FILES = ["coq/Msg.v", "coq/Per.v", "coq/Der.v", "coq/Gcc.v", "coq/Canon.v", "coq/BerYasna.v"]
 PROFILES = ["debug", "release"]
 RULE = ("random message shapes (depth <= 4, width <= 6, every node kind, Size/SkipIf closures over the closure language) "
         "with random values, written and read back into the emptied shape with and without trailing bytes, plus mutated "
@@ -21,17 +24,23 @@ RULE = ("random message shapes (depth <= 4, width <= 6, every node kind, Size/Sk
         "thorough, u32 boundaries and samples), (minimum,value) pairs, object identifiers over a boundary grid, octet and "
         "numeric strings at every length boundary, hostile inputs to every reader; DER: values drawn from the grammar of "
         "shapes used by MCS and CredSSP; GCC: server responses from a python reference encoder (any channel ids, version, "
-        "requested protocols, block order, unknown blocks).  Non-trivial = something was written and read back or a reader "
+        "requested protocols, block order, unknown blocks).  The other direction: every PER reader on canonical and on "
+        "every kind of non-canonical input (two-octet lengths of small values, non-minimal integers, nibbles above 9, non-zero "
+        "pad nibbles, short / non-zero padding), DER / BER variants of the connect response, and random templates read from "
+        "well-formed and damaged bytes, each followed by the real writer and a comparison with the input.  Non-trivial = something was written and read back or a reader "
         "returned a value/size error; distinct = (operation, structure signature, outcome class).")
 TRUSTED_BASE = ["Coq 8.16.1 kernel (vm_compute for byte-level bit facts in Sweep.v / C18_per_proofs.v)",
                 "hand-written models coq/Msg.v (message interpreter), coq/Per.v, coq/Der.v, coq/Gcc.v tied to /repo by this correspondence run",
                 "extraction (ExtrOcamlBasic only) + ocaml/codec18/driver.ml (shape parser, dump)",
                 "Rust harness/src/codec18.rs (shape parser, boxed wrappers delegating every Message method, closure interpreter)",
                 "yasna (external): modelled by coq/Der.v on the DER shapes used, sampled here, not verified",
-                "gen/refcodec.py: python reference codecs written from X.691 / X.690 / T.124"]
+                "gen/refcodec.py: python reference codecs (encoders and decoders) written from X.691 / X.690 / T.124",
+                "coq/Canon.v (canonical-input predicates, slack / tight) and coq/RefPerDec.v (reference PER decoders): definitions the "
+                "encode-after-decode theorems are about; extracted and compared with the implementation's own read-then-write on every case"]
 ASSUMPTIONS = ["a Rust slice is at most isize::MAX long; `minimum` arguments of the PER string primitives are below 2^63",
                "closures attached to DynOption are drawn from the closure language of Msg.v (every closure in the crate is of that form)",
-               "reference codecs: gen/refcodec.py (python) and coq/RefPer.v (Gallina)"]
+               "reference codecs: gen/refcodec.py (python) and coq/RefPer.v / coq/RefPerDec.v (Gallina)",
+               "encode-after-decode statements are about inputs made of octets (all_bytes) and, for the PER string primitives, minimum < 2^62"]
 
 # ------------------------------------------------------------------------------------------------ message shapes
 BV8 = [0, 1, 2, 3, 7, 0x10, 0x20, 0x30, 0x7f, 0x80, 0xfe, 0xff]
@@ -563,9 +572,9 @@ def _dtext(v):
     if k in ("exp", "imp"): return "%s%s%d(%s)" % ("x" if k == "exp" else "m", v[1], v[2], _dtext(v[3]))
     return R.der_text(v)
 
-def cc_response_blocks(rng, ids, version, order=None, extra=False):
+def cc_response_blocks(rng, ids, version, order=None, extra=False, io=1003):
     parts = {"core": R.sc_core(version, rng.choice([None, 0, 1, 3]), None), "sec": R.sc_security(rng.choice([0, 1, 2]), rng.choice([0, 1, 2])),
-             "net": R.sc_net(1003, ids, pad=rng.random() < 0.7)}
+             "net": R.sc_net(io, ids, pad=rng.random() < 0.7)}
     order = order or ["core", "sec", "net"]
     out = b""
     for k in order:
@@ -650,9 +659,10 @@ def der_gcc_cases(tier, rng):
         ids = [rng.choice([0, 1, 1003, 1004, 1005, 1006, 1007, 0x7fff, 0x8000, 0xffff]) if rng.random() < 0.7 else rng.randrange(65536) for _ in range(rng.choice([0, 1, 1, 2, 3, 4, 5, 31]))]
         version = rng.choice(vers[:6]) if rng.random() < 0.8 else rng.randrange(1 << 32)
         order = list(rng.choice(list(itertools.permutations(["core", "sec", "net"]))))
-        blocks = cc_response_blocks(rng, ids, version, order, extra=rng.random() < 0.3)
+        io = rng.choice([1003, 1003, 0, 1, 1002, 1004, 0x7fff, 0x8000, 0xffff, rng.randrange(65536)])      # the I/O channel id is the server's choice
+        blocks = cc_response_blocks(rng, ids, version, order, extra=rng.random() < 0.3, io=io)
         resp = R.gcc_conference_create_response(blocks, rng.choice([1001, 1002, 31219, 65535]), rng.choice([0, 1, 255, 256, 65535, 65536]), rng.choice([0, 1, 2]))
-        cs.append(("gcc18 resp " + hx(resp), "ok:ids=%s:ver=%s" % (".".join(str(i) for i in ids) or "-", vname(version))))
+        cs.append(("gcc18 resp " + hx(resp), "ok:io=%d:ids=%s:ver=%s" % (io, ".".join(str(i) for i in ids) or "-", vname(version))))
         r = rng.random()
         if r < 0.15: cs.append(("gcc18 resp " + hx(resp[:rng.randrange(len(resp))]), None))                  # truncated
         elif r < 0.25:
@@ -675,7 +685,223 @@ def der_gcc_cases(tier, rng):
         cs.append(("gcc18 ccore %d %d %s %d %s" % (w, h, lay, proto, hx(name)), "len=%d w=%s r=ok consumed=%d same=true" % (len(ref), hx(ref), len(ref))))
     return cs
 
-EXTRA = [der_gcc_cases]
+# ------------------------------------------------------------------------------------------------ decode, then encode
+def dw_line(dec, enc, show, data):
+    """expected output of a `per dw..` case from the REFERENCE decoder and encoder (None = the reference does not accept
+    the input: no claim, model and implementation must still agree)"""
+    r = dec(data)
+    if r is None: return None
+    v, rest = r
+    w = enc(v)
+    if w is None: return None
+    return "r=ok:%s:rest=%d w=%s same=%d" % (show(v), len(rest), hx(w), 1 if w + bytes(rest) == bytes(data) else 0)
+
+def per_dw_cases(tier, rng):
+    quick = tier == "quick"
+    cs = []
+    tails = [b"", b"\xaa", b"\x00\x01"]
+    # ---- length determinant: every first octet, second octets over a grid (canonical iff one octet, or value >= 128)
+    seconds = [0, 1, 5, 0x7f, 0x80, 0x81, 0xfe, 0xff]
+    for b0 in range(256):
+        for b1 in (seconds if (b0 >= 0x80 and (b0 in (0x80, 0x81, 0xff) or not quick or b0 % 16 == 0)) else [0x55]):
+            data = bytes([b0, b1]) + rng.choice(tails)
+            cs.append(("per dwlen " + hx(data), dw_line(R.per_dec_length, R.per_length, str, data)))
+    cs.append(("per dwlen 80", None)); cs.append(("per dwlen -", None))
+    # ---- integer: canonical and non-minimal size classes, one- and two-octet length determinants, bad sizes, short input
+    vals = [0, 1, 0x7f, 0x80, 0xff, 0x100, 0x101, 0x7fff, 0x8000, 0xffff, 0x10000, 0x10001, 0xffffff, 0x1000000, 0x7fffffff, 0x80000000, 0xffffffff]
+    vals += [rng.randrange(1 << 32) for _ in range(40 if quick else 3000)] + [rng.randrange(1 << 16) for _ in range(20 if quick else 1000)]
+    for v in vals:
+        for size in (1, 2, 4):
+            if v >= 1 << (8 * size): continue
+            body = v.to_bytes(size, "big")
+            for hdr in (bytes([size]), bytes([0x80, size])):
+                data = hdr + body + rng.choice(tails)
+                cs.append(("per dwint " + hx(data), dw_line(R.per_dec_integer, R.per_integer, str, data)))
+    for data in [b"", b"\x00", b"\x03\x01\x02\x03", b"\x05\x01\x02\x03\x04\x05", b"\x02\x01", b"\x04\x01\x02\x03", b"\x80", b"\x80\x02\x01", b"\x81\x00" + bytes(256)]:
+        cs.append(("per dwint " + hx(data), None))
+    # ---- integer_16: always canonical
+    for (raw, m) in [(0, 0), (3, 1001), (64534, 1001), (64535, 1001), (65535, 0), (65535, 1), (0, 65535), (1, 65535), (1234, 77)] + \
+                    [(rng.randrange(65536), rng.randrange(65536)) for _ in range(60 if quick else 3000)]:
+        data = raw.to_bytes(2, "big") + rng.choice(tails)
+        exp = dw_line(lambda b: R.per_dec_integer_16(m, b), lambda v: (v - m).to_bytes(2, "big"), str, data)
+        cs.append(("per dwint16 %d %s" % (m, hx(data)), exp))
+    cs.append(("per dwint16 5 01", None))
+    # ---- object identifier (the reader compares): canonical, two-octet length, arcs the writer refuses, mismatches
+    oids = [T124_OID, bytes([1, 2, 3, 4, 5, 6]), bytes([2, 39, 127, 127, 127, 127]), bytes([0, 0, 0, 0, 0, 0]), bytes([2, 0, 20, 124, 0, 1])]
+    oids += [bytes([rng.choice([0, 1, 2]), rng.randrange(40)] + [rng.randrange(128) for _ in range(4)]) for _ in range(30 if quick else 2000)]
+    for o in oids:
+        e = R.per_oid(list(o))
+        def exp_oid(expected, data):
+            r = R.per_dec_oid(data)
+            if r is None or len(r[0]) != 6 or R.per_oid(r[0]) is None: return None
+            arcs, rest = r
+            if list(expected) == arcs:
+                w = R.per_oid(arcs)
+                return "r=ok:true:rest=%d w=%s same=%d" % (len(rest), hx(w), 1 if w + bytes(rest) == bytes(data) else 0)
+            return "r=ok:false:rest=%d w=- same=0" % len(rest)
+        for data in (e, e + b"\xbb", b"\x80" + e):
+            cs.append(("per dwoid %s %s" % (hx(o), hx(data)), exp_oid(o, data)))
+        o2 = bytearray(o); i = rng.randrange(6); o2[i] = (o2[i] + 1) % (3 if i == 0 else 40 if i == 1 else 128)
+        cs.append(("per dwoid %s %s" % (hx(bytes(o2)), hx(e)), exp_oid(bytes(o2), e)))
+    # outside the writer's domain the reader still compares; the writer refuses (no reference claim)
+    for (o, data) in [(bytes([3, 5, 20, 124, 0, 1]), bytes([5, 125, 20, 124, 0, 1])), (bytes([2, 45, 20, 124, 0, 1]), bytes([5, 125, 20, 124, 0, 1])),
+                      (bytes([0, 0, 200, 124, 0, 1]), bytes([5, 0, 200, 124, 0, 1])), (bytes([6, 15, 1, 2, 3, 4]), bytes([5, 255, 1, 2, 3, 4])),
+                      (T124_OID, bytes([4, 0, 20, 124, 0])), (T124_OID, bytes([5, 0, 20, 124])), (T124_OID, b"")]:
+        cs.append(("per dwoid %s %s" % (hx(o), hx(data)), None))
+    # ---- octet stream (compared with the expected string)
+    for (s_, m) in [(b"McDn", 4), (b"Duca", 4), (b"", 0), (b"a", 0), (b"abc", 1), (bytes(range(130)), 0), (bytes(range(130)), 4), (bytes(200), 131)]:
+        e = R.per_octet_string(s_, m)
+        l = len(s_) - m
+        for data in [e + rng.choice(tails), bytes([0x80 | (l >> 8), l & 0xff]) + s_ + rng.choice(tails)]:
+            def dec(b, s_=s_, m=m):
+                r = R.per_dec_octet_string(m, b)
+                return None if r is None or r[0] != s_ else ("-", r[1])
+            cs.append(("per dwoct %s %d %s" % (hx(s_), m, hx(data)), dw_line(dec, lambda v, s_=s_, m=m: R.per_octet_string(s_, m), str, data)))
+    cs.append(("per dwoct 4d63446e 4 004d63446f", None)); cs.append(("per dwoct 4d63446e 4 014d63446e00", None))
+    # ---- numeric string: digits, nibbles above 9, non-zero pad nibble, two-octet length
+    def num_case(m, data):
+        exp = dw_line(lambda b: R.per_dec_numeric_string(m, b), lambda v: R.per_numeric_string(v, m), hx, data)
+        cs.append(("per dwnum %d %s" % (m, hx(data)), exp))
+    for n in list(range(0, 9)) + [127, 128, 129, 255, 256]:
+        for m in (0, 1):
+            if n < m: continue
+            body = bytes(((rng.randrange(10) << 4) | rng.randrange(10)) for _ in range((n + 1) // 2))
+            if n % 2: body = body[:-1] + bytes([body[-1] & 0xf0])
+            lb = R.per_length(n - m)
+            num_case(m, lb + body + rng.choice(tails))
+            num_case(m, bytes([0x80 | ((n - m) >> 8), (n - m) & 0xff]) + body)
+            if n:
+                bad = bytearray(body); k = rng.randrange(len(bad)); bad[k] = rng.choice([0x1a, 0xa1, 0xff, 0x0f, 0xf0])
+                num_case(m, lb + bytes(bad))                                   # a nibble above 9 somewhere (or in the pad)
+            if n % 2:
+                num_case(m, lb + body[:-1] + bytes([body[-1] | rng.randrange(1, 16)]))   # non-zero pad nibble
+    for data in [b"", b"\x03\x12", b"\x80", b"\x81\x00\x11"]:
+        for m in (0, 1): cs.append(("per dwnum %d %s" % (m, hx(data)), None))
+    # ---- padding: zeros / non-zeros / short
+    for n in [0, 1, 2, 7]:
+        for data in [bytes(n), bytes(n) + b"\x09", bytes([7] * n), bytes(max(0, n - 1)), bytes([0] * max(0, n - 1) + [1]) + b"\x00"]:
+            have = min(n, len(data))
+            cs.append(("per dwpad %d %s" % (n, hx(data)), "r=ok:-:rest=%d w=%s same=%d" % (len(data) - have, hx(bytes(n)), 1 if bytes(n) + data[have:] == data else 0)))
+    # ---- one-octet primitives: always canonical
+    for v in ([0, 1, 0x7f, 0x80, 0xff] if quick else range(256)):
+        for op in ("dwchoice", "dwsel", "dwnset", "dwenum"):
+            t = rng.choice(tails)
+            cs.append(("per %s %s" % (op, hx(bytes([v]) + t)), "r=ok:%d:rest=%d w=%02x same=1" % (v, len(t), v)))
+    for op in ("dwchoice", "dwsel", "dwnset", "dwenum"): cs.append(("per %s -" % op, "r=err:Io"))
+    return cs
+
+def der_dw_cases(tier, rng):
+    quick = tier == "quick"
+    cs = []
+    # the strict reader accepts the encoder's output and gives it back; BER liberties are refused
+    for _ in range(300 if quick else 20000):
+        sch = rand_schema(rng, rng.choice([0, 1, 2, 2, 3]))
+        v = inst(rng, sch); t = inst(rng, sch, zero=True)
+        enc = R.der_encode(v)
+        if len(enc) > 6000: continue
+        cs.append(("der dw %s %s" % (_dtext(t), hx(enc)), "ok:%s w=%s same=1" % (dump_dval(v), hx(enc))))
+        if len(enc) >= 2 and enc[1] < 0x80 and rng.random() < 0.5:
+            cs.append(("der dw %s %s" % (_dtext(t), hx(enc[:1] + R.ber_long_len(enc[1], 0) + enc[2:])), "err:Asn1"))   # 81 nn for nn < 128
+    for (t, h) in [("i0", "02020005"), ("i0", "0281010 5".replace(" ", "")), ("b0", "010101"), ("s(i0)", "30800201050000"), ("xC5(i0)", "bf0503020105")]:
+        cs.append(("der dw %s %s" % (t, h), "err:Asn1"))
+    # the connect response through the lenient reader the client uses: DER comes back, BER variants are read but re-encode differently
+    for _ in range(60 if quick else 3000):
+        ud = bytes(rng.randrange(256) for _ in range(rng.choice([0, 3, 60, 130, 300])))
+        v = R.connect_response(ud, rng.choice([0, 1, 2, 14, 15]), rng.choice(DINT), tuple(rng.choice(DINT) for _ in range(8)))
+        e = R.der_encode(v)
+        inner = R.der_encode(v[3])[1:]                 # the SEQUENCE without its identifier octet ...
+        ln = R.der_len(len(b"".join(R.der_encode(x) for x in v[3][1])))
+        body = inner[len(ln):]                         # ... and without its length: the four members
+        cs.append(("mcs crdw " + hx(e), "ok:ud=%s same=1" % hx(ud)))
+        q = rng.random()
+        if q < 0.3:   cs.append(("mcs crdw " + hx(b"\x7f\x66" + R.ber_long_len(len(body)) + body), "ok:ud=%s same=0" % hx(ud)))       # non-minimal length
+        elif q < 0.5: cs.append(("mcs crdw " + hx(b"\x7f\x66\x80" + body + b"\x00\x00"), "ok:ud=%s same=0" % hx(ud)))                # indefinite length
+        elif q < 0.7 and len(ud) >= 2:
+            k = len(ud) // 2
+            pre = body[:len(body) - len(R.der_encode(("oct", ud)))]
+            parts = R.der_encode(("oct", ud[:k])) + R.der_encode(("oct", ud[k:]))
+            body2 = pre + b"\x24" + R.der_len(len(parts)) + parts                                                                       # constructed OCTET STRING
+            cs.append(("mcs crdw " + hx(b"\x7f\x66" + R.der_len(len(body2)) + body2), "ok:ud=%s same=0" % hx(ud)))
+        elif q < 0.8: cs.append(("mcs crdw " + hx(e[:rng.randrange(len(e))]), None))
+        elif q < 0.9: cs.append(("mcs crdw " + hx(e + b"\x00"), None))
+    return cs
+
+def rw_cases(tier, rng):
+    """templates of every kind read from the bytes of a well-formed message (+ trailing bytes) and from damaged bytes,
+    then written back"""
+    n = 4000 if tier == "quick" else 300000
+    out = []
+    for i in range(n):
+        depth = rng.choice([1, 2, 2, 3, 3, 4])
+        closed = rng.random() < 0.5
+        _claim[0] = True
+        g = g_node(rng, depth, closed)
+        if len(g.w) > 6000 or has_big_size(g.t): continue
+        rest = b"" if closed else bytes(rng.randrange(256) for _ in range(rng.choice([0, 1, 3, 8])))
+        exp = ("ok consumed=%d val=%s len=%d w=%s same=1" % (len(g.b), g.d, len(g.b), hx(g.b))) if _claim[0] else None
+        out.append(("rw %s %s" % (g.t, hx(g.b + rest)), exp))
+        r = rng.random()
+        if r < 0.5:
+            data = bytearray(g.b + rest)
+            q = rng.random()
+            if q < 0.35 and data: data = data[:rng.randrange(len(data))]
+            elif q < 0.7 and data: data[rng.randrange(len(data))] = rng.choice([0, 1, 3, 5, 17, 0x7f, 0x80, 0xff])
+            else: data += bytes(rng.randrange(256) for _ in range(rng.randrange(1, 6)))
+            out.append(("rw %s %s" % (g.t, hx(bytes(data))), None))
+    # the layouts the client reads, on inputs that are tight and on inputs that lose bytes (C18_inv_layouts.v)
+    sch = "c(totalLength=d(zpduMessage~x_6;u16l:0),pduType=u16l:17,PDUSource=o(u16l:0),pduMessage=v:-)"
+    for h in ["08001700ea03aabbcc", "06001700", "06001700ea", "0a001700ea03aabbccdd", "09001700ea03aabbccdd"]: out.append(("rw %s %s" % (sch, h), None))
+    core = "c(rdpVersion=u32l:0,clientRequestedProtocol=o(u32l:0),earlyCapabilityFlags=o(u32l:0))"
+    for k in range(0, 15): out.append(("rw %s %s" % (core, hx(bytes((7 * j + 1) % 256 for j in range(k)))), None))
+    net = "c(MCSChannelId=u16l:0,channelCount=d(zchannelIdArray~x*2;u16l:0),channelIdArray=a(u16l:0))"
+    for h in ["eb030200ec03ed03", "eb030100ec030000", "eb030000", "eb030200ec03ed", "eb030300ec03ed03ee03aa", "ffff0100ec03", "00000000"]: out.append(("rw %s %s" % (net, h), None))
+    return out
+
+def gcc_canon_cases(tier, rng):
+    """the canonical reconstruction of what the reader returned (I/O channel id, channel ids, version) reads back to the
+    same server data"""
+    cs = []
+    vcode = {"4": 0x80001, "5plus": 0x80004, "unknown": 0}
+    for _ in range(60 if tier == "quick" else 3000):
+        ids = [rng.choice([0, 1003, 1004, 1005, 0x7fff, 0x8000, 0xffff]) if rng.random() < 0.6 else rng.randrange(65536) for _ in range(rng.choice([0, 1, 2, 3, 5, 31]))]
+        ver = rng.choice(["4", "5plus", "unknown"])
+        io = rng.choice([1003, 1003, 0, 1, 1004, 0x7fff, 0x8000, 0xffff]) if rng.random() < 0.7 else rng.randrange(65536)
+        canon = R.gcc_conference_create_response(R.sc_core(vcode[ver]) + R.sc_security(0, 0) + R.sc_net(io, ids), 1001, 1, 0)
+        cs.append(("gcc18 resp " + hx(canon), "ok:io=%d:ids=%s:ver=%s" % (io, ".".join(str(i) for i in ids) or "-", ver)))
+    return cs
+
+def absent_cases(tier, rng):
+    """consecutive absent trailing options (the checker [wf] covers them: what follows an absent option writes nothing),
+    also nested and in front of an empty read-to-end block; written, read back (claimed well formed, closed reader), and
+    read-then-written"""
+    out = []
+    for _ in range(60 if tier == "quick" else 3000):
+        head = [g_num(rng) for _ in range(rng.choice([0, 1, 2]))]
+        k = rng.choice([2, 2, 3, 4])
+        present = rng.randrange(0, k)                       # the first `present` options are there, the others absent
+        opts = [g_num(rng) for _ in range(k)]
+        names = [fresh(rng) for _ in range(len(head) + k + 1)]
+        fw, ft, fd, b = [], [], [], b""
+        for i, g in enumerate(head):
+            fw.append("%s=%s" % (names[i], g.w)); ft.append("%s=%s" % (names[i], g.t)); fd.append("%s=%s" % (names[i], g.d)); b += g.b
+        for j, g in enumerate(opts):
+            nm = names[len(head) + j]
+            ft.append("%s=o(%s)" % (nm, g.t))
+            if j < present: fw.append("%s=o(%s)" % (nm, g.w)); fd.append("%s=%s" % (nm, g.d)); b += g.b
+            else: fw.append("%s=o()" % nm); fd.append("%s=~" % nm)
+        if rng.random() < 0.3:                              # an empty unsized block after the absent options
+            nm = names[-1]; fw.append("%s=v:-" % nm); ft.append("%s=v:-" % nm); fd.append("%s=x-" % nm)
+        w, t, d = "c(%s)" % ",".join(fw), "c(%s)" % ",".join(ft), "{%s}" % ",".join(fd)
+        if rng.random() < 0.3:
+            pre = g_num(rng); w, t, d, b = "t(%s,%s)" % (pre.w, w), "t(%s,%s)" % (pre.t, t), "[%s,%s]" % (pre.d, d), pre.b + b
+        out.append(("msg %s %s - c" % (w, t), "len=%d w=%s r=ok consumed=%d val=%s" % (len(b), hx(b), len(b), d)))
+        out.append(("rw %s %s" % (t, hx(b)), "ok consumed=%d val=%s len=%d w=%s same=1" % (len(b), d, len(b), hx(b))))
+    return out
+
+def inv_cases(tier, rng):
+    return absent_cases(tier, rng) + per_dw_cases(tier, rng) + der_dw_cases(tier, rng) + rw_cases(tier, rng) + gcc_canon_cases(tier, rng)
+
+EXTRA = [der_gcc_cases, inv_cases]
 
 def gen_cases(tier, rng):
     cases = per_cases(tier, rng)
@@ -700,11 +926,12 @@ def sig_of(shape):
 def shape(line):
     t = line.split()
     if t[0] == "msg": return ("msg", sig_of(t[1]), min(t[1].count("("), 12), t[4] if len(t) > 4 else "-")
-    if t[0] == "rd": return ("rd", sig_of(t[1]), min(t[1].count("("), 12))
+    if t[0] in ("rd", "rw"): return (t[0], sig_of(t[1]), min(t[1].count("("), 12))
     return (t[0], t[1], min(len(line) // 16, 20))
 
 def nontrivial(line, out):
     if line.startswith("msg"): return " r=ok" in out and "w=-" not in out
+    if line.startswith("rw "): return " same=" in out and "consumed=0 " not in out
     return ("ok:" in out or "err:Invalid" in out) and not line.endswith(" -")
 
 def unhx(t): return b"" if t in ("-", "") else bytes.fromhex(t)
@@ -749,6 +976,19 @@ def oracle(line, out, expect):
         if m and m.group(1) != "panic":
             nbytes = 0 if m.group(2) == "-" else len(m.group(2)) // 2
             if int(m.group(1)) != nbytes: return "length() = %s but %d bytes were written" % (m.group(1), nbytes)
+    if " same=" in out and " w=" in out and "w=err" not in out and "w=panic" not in out:
+        # generic laws of the other direction, judged on the implementation's own output: the bytes written after a
+        # read are never more than the bytes consumed, length() is their number, and `same` means what it says
+        t = line.split()
+        w = unhx(re.search(r" w=(\S+)", out).group(1)); same = out.endswith("same=1")
+        if t[0] == "rw":
+            data = unhx(t[2]); consumed = int(re.search(r"consumed=(\d+)", out).group(1)); ln = re.search(r" len=(\S+)", out).group(1)
+            if ln != str(len(w)): return "length() = %s of the message read, but writing it gives %d bytes" % (ln, len(w))
+            if len(w) > consumed: return "read consumed %d bytes but the message read writes %d" % (consumed, len(w))
+            if same != (w + data[consumed:] == data): return "inconsistent comparison: same=%d" % same
+        elif t[0] == "per" and t[1].startswith("dw"):
+            data = unhx(t[-1]); rest = int(re.search(r"rest=(\d+)", out).group(1))
+            if same != (w + data[len(data) - rest:] == data): return "inconsistent comparison: same=%d" % same
     if expect is not None and out != expect:
         return "reference codec / generic law expects `%s`, implementation returned `%s`" % (expect[:400], out[:400])
     return None
